@@ -106,8 +106,8 @@ class C15Machine(Machine):
 
     def plan(self, tier):
         if tier == 'quick':
-            return {'runs': 170, 'budget_s': 160, 'batch': 1, 'shrink_s': 300}
-        return {'runs': 6000, 'budget_s': 1800, 'batch': 1, 'shrink_s': 600}
+            return {'runs': 170, 'budget_s': 160, 'batch': 2, 'shrink_s': 300}
+        return {'runs': 6000, 'budget_s': 1800, 'batch': 2, 'shrink_s': 600}
 
     def generate(self, rng, tier, index):
         if tier == 'thorough' and index < 4:
